@@ -31,6 +31,10 @@ type CtlConfig struct {
 	Name             string            `json:"name"`
 	ParentResource   string            `json:"parentResource"`
 	ParentResources  []string          `json:"parentResources,omitempty"` // decorator
+	// TwinParent (decorator): "" | "ignores" | "heeds". A first resource rule is added for a resource with the
+	// same plural and kind as the parent's in API group twin.io (served by the world), with ignoreStatusChanges
+	// set ("ignores") or unset ("heeds"), whatever IgnoreStatus says for the real parent rule.
+	TwinParent string `json:"twinParent,omitempty"`
 	Children         []ChildCfg        `json:"children"`
 	GenerateSelector bool              `json:"generateSelector,omitempty"`
 	FinalizeHook     bool              `json:"finalizeHook,omitempty"`
@@ -158,6 +162,14 @@ func (cfg *CtlConfig) DecoratorObject(sim *vs.Server) *v1alpha1.DecoratorControl
 	if len(prs) == 0 {
 		prs = []string{cfg.ParentResource}
 	}
+	if cfg.TwinParent != "" {
+		td := sim.Def(TwinName(cfg.ParentResource))
+		rule := v1alpha1.DecoratorControllerResourceRule{ResourceRule: v1alpha1.ResourceRule{APIVersion: td.APIVersion(), Resource: td.Resource}}
+		if cfg.TwinParent == "ignores" {
+			rule.IgnoreStatusChanges = boolp(true)
+		}
+		dc.Spec.Resources = append(dc.Spec.Resources, rule)
+	}
 	for _, pr := range prs {
 		pd := sim.Def(pr)
 		rule := v1alpha1.DecoratorControllerResourceRule{ResourceRule: v1alpha1.ResourceRule{APIVersion: pd.APIVersion(), Resource: pd.Resource}}
@@ -192,6 +204,22 @@ func (cfg *CtlConfig) DecoratorObject(sim *vs.Server) *v1alpha1.DecoratorControl
 		dc.Spec.Hooks.Customize = webhook(CustomizeURL, cfg)
 	}
 	return dc
+}
+
+// TwinName is the harness name of the twin of a parent resource (same plural and kind, API group twin.io).
+func TwinName(resource string) string { return "twin-" + resource }
+
+// TwinDef builds the definition of that twin from the universe's definition of the resource.
+func TwinDef(resource string) *vs.ResourceDef {
+	for _, d := range Universe() {
+		if d.Resource == resource {
+			t := *d
+			t.Group = "twin.io"
+			t.Alias = TwinName(resource)
+			return &t
+		}
+	}
+	panic("verifworld: no such resource " + resource)
 }
 
 // FinalizerName is the finalizer the controller manages on parents.
